@@ -50,10 +50,15 @@ pub struct FProg {
     /// Pending - the `yield_now().await` shape; the waker of `block_on` itself, not a clone
     #[serde(default)]
     pub self_wakes: u8,
+    /// an earlier `block_on` on the same thread (its future is Ready at the first poll and hands out a clone of its waker)
+    /// has returned; the first waking thread wakes that stale waker before its script. It must not reach the later
+    /// `block_on`: not counted as a wake, no poll may be caused by it
+    #[serde(default)]
+    pub stale_waker: bool,
 }
 impl FProg {
     pub fn s(&self) -> String {
-        format!("block_on(fut[{}{}{}{}{}])  ||  {}", if self.self_wakes > 0 { format!("first {} polls wake themselves by ref and return Pending, then ", self.self_wakes) } else { String::new() }, if self.direct { "no registration" } else if self.use_aw { "AtomicWaker" } else { "waker slot in a Mutex" }, if self.recheck { ", re-check after register" } else { ", no re-check" }, if self.counter { ", one counter incremented by every waker" } else if self.flag_per_waker { ", one flag per waker" } else { "" }, if self.relaxed_flags { ", relaxed flags" } else { "" }.to_string() + if self.direct { ", wakers handed out at the first poll" } else { "" }, self.wakers.iter().map(|t| t.iter().map(|o| format!("{:?}", o)).collect::<Vec<_>>().join("; ")).collect::<Vec<_>>().join("  ||  "))
+        format!("{}block_on(fut[{}{}{}{}{}])  ||  {}", if self.stale_waker { "w0 = block_on(ready future handing out its waker) ; " } else { "" }, if self.self_wakes > 0 { format!("first {} polls wake themselves by ref and return Pending, then ", self.self_wakes) } else { String::new() }, if self.direct { "no registration" } else if self.use_aw { "AtomicWaker" } else { "waker slot in a Mutex" }, if self.recheck { ", re-check after register" } else { ", no re-check" }, if self.counter { ", one counter incremented by every waker" } else if self.flag_per_waker { ", one flag per waker" } else { "" }, if self.relaxed_flags { ", relaxed flags" } else { "" }.to_string() + if self.direct { ", wakers handed out at the first poll" } else { "" }, self.wakers.iter().map(|t| t.iter().map(|o| format!("{:?}", o)).collect::<Vec<_>>().join("; ")).collect::<Vec<_>>().join("  ||  "))
     }
 }
 
@@ -314,10 +319,24 @@ pub fn run_loom_bounded(p: &FProg, iter_cap: usize, bound: Option<usize>) -> FRu
             let s = Arc::new(Shared { count: if p2.counter { Some(loom::sync::atomic::AtomicUsize::new(0)) } else { None }, flags: [AtomicBool::new(false), AtomicBool::new(false)], need: if p2.flag_per_waker { p2.wakers.len().min(2) } else { 1 }, relaxed: p2.relaxed_flags, slot: loom::sync::Mutex::new(None), aw: AtomicWaker::new(), polls: Default::default(), wakes: Default::default() });
             let use_aw = p2.use_aw;
             let mut hs = Vec::new();
+            // an earlier block_on of this thread, already finished
+            struct Grab;
+            impl Future for Grab {
+                type Output = Waker;
+                fn poll(self: Pin<&mut Self>, cx: &mut Context<'_>) -> Poll<Waker> {
+                    Poll::Ready(cx.waker().clone())
+                }
+            }
+            let mut stale: Option<Waker> = if p2.stale_waker { Some(block_on(Grab)) } else { None };
             let handles: Arc<Mutex<Vec<loom::thread::JoinHandle<()>>>> = Arc::new(Mutex::new(Vec::new()));
             for t in 0..if p2.direct { 0 } else { p2.wakers.len() } {
                 let (s2, p3, e3) = (s.clone(), p2.clone(), e2.clone());
+                let stale = if t == 0 { stale.take() } else { None };
                 hs.push(loom::thread::spawn(move || {
+                    if let Some(w) = stale {
+                        w.wake_by_ref();
+                        drop(w);
+                    }
                     for op in &p3.wakers[t] {
                         e3.fetch_add(1, SeqCst);
                         match op {
@@ -358,6 +377,7 @@ pub fn run_loom_bounded(p: &FProg, iter_cap: usize, bound: Option<usize>) -> FRu
                     }
                 }));
             }
+            drop(stale.take());
             let out = block_on(Fut { s: s.clone(), use_aw, recheck: p2.recheck, direct: if p2.direct { Some((p2.clone(), e2.clone())) } else { None }, started: false, selfw: p2.self_wakes, handles: handles.clone() });
             assert_eq!(out, 1, "block_on returned something else than the future's output");
             r2.fetch_add(1, SeqCst);
@@ -463,51 +483,57 @@ fn core() -> &'static Vec<FProg> {
             }
             for l in &lists {
                 for recheck in [true, false] {
-                    v.push(FProg { use_aw, recheck, wakers: vec![l.clone()], flag_per_waker: false, relaxed_flags: false, direct: false, counter: false, self_wakes: 0 });
+                    v.push(FProg { use_aw, recheck, wakers: vec![l.clone()], flag_per_waker: false, relaxed_flags: false, direct: false, counter: false, self_wakes: 0, stale_waker: false });
                 }
             }
             // two waker threads
             // (two wakers cost >= 100 000 iterations each: a handful here, more in the random part of the thorough tier)
             for (a, b) in [(vec![SetFlag, Wake], vec![Wake]), (vec![SetFlag], vec![SetFlag, Wake])] {
-                v.push(FProg { use_aw, recheck: true, wakers: vec![a.clone(), b.clone()], flag_per_waker: false, relaxed_flags: false, direct: false, counter: false, self_wakes: 0 });
+                v.push(FProg { use_aw, recheck: true, wakers: vec![a.clone(), b.clone()], flag_per_waker: false, relaxed_flags: false, direct: false, counter: false, self_wakes: 0, stale_waker: false });
             }
             // two wakers, each with its own relaxed flag: the flags are only visible through the wakes; when the two
             // wakes coalesce into one notification the re-poll must still see both
-            v.push(FProg { use_aw, recheck: true, wakers: vec![vec![SetFlag, Wake], vec![SetFlag, Wake]], flag_per_waker: true, relaxed_flags: true, direct: false, counter: false, self_wakes: 0 });
-            v.push(FProg { use_aw, recheck: true, wakers: vec![vec![SetFlag, Wake], vec![SetFlag, Wake]], flag_per_waker: true, relaxed_flags: false, direct: false, counter: false, self_wakes: 0 });
-            v.push(FProg { use_aw, recheck: true, wakers: vec![vec![SetFlag, Wake]], flag_per_waker: false, relaxed_flags: true, direct: false, counter: false, self_wakes: 0 });
+            v.push(FProg { use_aw, recheck: true, wakers: vec![vec![SetFlag, Wake], vec![SetFlag, Wake]], flag_per_waker: true, relaxed_flags: true, direct: false, counter: false, self_wakes: 0, stale_waker: false });
+            v.push(FProg { use_aw, recheck: true, wakers: vec![vec![SetFlag, Wake], vec![SetFlag, Wake]], flag_per_waker: true, relaxed_flags: false, direct: false, counter: false, self_wakes: 0, stale_waker: false });
+            v.push(FProg { use_aw, recheck: true, wakers: vec![vec![SetFlag, Wake]], flag_per_waker: false, relaxed_flags: true, direct: false, counter: false, self_wakes: 0, stale_waker: false });
             if !use_aw {
                 // wakers handed out at the first poll (no registration): one and two waking threads, every flag ordering
                 for relaxed_flags in [false, true] {
-                    v.push(FProg { use_aw, recheck: true, wakers: vec![vec![SetFlag, Wake]], flag_per_waker: false, relaxed_flags, direct: true, counter: false, self_wakes: 0 });
-                    v.push(FProg { use_aw, recheck: true, wakers: vec![vec![SetFlag, Wake], vec![SetFlag, Wake]], flag_per_waker: true, relaxed_flags, direct: true, counter: false, self_wakes: 0 });
-                    v.push(FProg { use_aw, recheck: true, wakers: vec![vec![SetFlag, Wake], vec![SetFlag, Wake]], flag_per_waker: false, relaxed_flags, direct: true, counter: false, self_wakes: 0 });
-                    v.push(FProg { use_aw, recheck: true, wakers: vec![vec![Wake, SetFlag, Wake], vec![SetFlag]], flag_per_waker: true, relaxed_flags, direct: true, counter: false, self_wakes: 0 });
-                    v.push(FProg { use_aw, recheck: true, wakers: vec![vec![SetFlag], vec![SetFlag, Wake]], flag_per_waker: true, relaxed_flags, direct: true, counter: false, self_wakes: 0 });
+                    v.push(FProg { use_aw, recheck: true, wakers: vec![vec![SetFlag, Wake]], flag_per_waker: false, relaxed_flags, direct: true, counter: false, self_wakes: 0, stale_waker: false });
+                    v.push(FProg { use_aw, recheck: true, wakers: vec![vec![SetFlag, Wake], vec![SetFlag, Wake]], flag_per_waker: true, relaxed_flags, direct: true, counter: false, self_wakes: 0, stale_waker: false });
+                    v.push(FProg { use_aw, recheck: true, wakers: vec![vec![SetFlag, Wake], vec![SetFlag, Wake]], flag_per_waker: false, relaxed_flags, direct: true, counter: false, self_wakes: 0, stale_waker: false });
+                    v.push(FProg { use_aw, recheck: true, wakers: vec![vec![Wake, SetFlag, Wake], vec![SetFlag]], flag_per_waker: true, relaxed_flags, direct: true, counter: false, self_wakes: 0, stale_waker: false });
+                    v.push(FProg { use_aw, recheck: true, wakers: vec![vec![SetFlag], vec![SetFlag, Wake]], flag_per_waker: true, relaxed_flags, direct: true, counter: false, self_wakes: 0, stale_waker: false });
                 }
-                v.push(FProg { use_aw, recheck: true, wakers: vec![vec![SetFlag, WakeByRef], vec![SetFlag, WakeByRef]], flag_per_waker: true, relaxed_flags: true, direct: false, counter: false, self_wakes: 0 });
+                v.push(FProg { use_aw, recheck: true, wakers: vec![vec![SetFlag, WakeByRef], vec![SetFlag, WakeByRef]], flag_per_waker: true, relaxed_flags: true, direct: false, counter: false, self_wakes: 0, stale_waker: false });
                 // one counter, two wakers, both wakes may arrive during the first poll: the poll caused by the (coalesced)
                 // wake must see both increments; a stale intermediate value stays readable after the spurious re-poll
                 for relaxed_flags in [true, false] {
                     for direct in [true, false] {
-                        v.push(FProg { use_aw, recheck: true, wakers: vec![vec![SetFlag, Wake], vec![SetFlag, Wake]], flag_per_waker: true, relaxed_flags, direct, counter: true, self_wakes: 0 });
-                        v.push(FProg { use_aw, recheck: true, wakers: vec![vec![SetFlag, WakeByRef], vec![SetFlag, WakeByRef]], flag_per_waker: true, relaxed_flags, direct, counter: true, self_wakes: 0 });
+                        v.push(FProg { use_aw, recheck: true, wakers: vec![vec![SetFlag, Wake], vec![SetFlag, Wake]], flag_per_waker: true, relaxed_flags, direct, counter: true, self_wakes: 0, stale_waker: false });
+                        v.push(FProg { use_aw, recheck: true, wakers: vec![vec![SetFlag, WakeByRef], vec![SetFlag, WakeByRef]], flag_per_waker: true, relaxed_flags, direct, counter: true, self_wakes: 0, stale_waker: false });
                     }
                 }
+            }
+        }
+        // an earlier block_on on the same thread whose waker is still around: waking it must not reach the later block_on
+        for use_aw in [true, false] {
+            for wakers in [vec![vec![SetFlag, Wake]], vec![vec![Wake, SetFlag, Wake]], vec![vec![SetFlag]], vec![vec![SetFlag, Wake], vec![Wake]]] {
+                v.push(FProg { use_aw, recheck: true, wakers, flag_per_waker: false, relaxed_flags: false, direct: false, counter: false, self_wakes: 0, stale_waker: true });
             }
         }
         // a task that wakes itself through the borrowed waker of block_on and returns Pending (`yield_now().await`): the
         // wake is not lost whether or not a clone of the waker exists at that moment
         for self_wakes in [1u8, 2] {
             for use_aw in [true, false] {
-                v.push(FProg { use_aw, recheck: true, wakers: vec![vec![SetFlag, Wake]], flag_per_waker: false, relaxed_flags: false, direct: false, counter: false, self_wakes });
-                v.push(FProg { use_aw, recheck: true, wakers: vec![vec![SetFlag]], flag_per_waker: false, relaxed_flags: false, direct: false, counter: false, self_wakes });
-                v.push(FProg { use_aw, recheck: false, wakers: vec![vec![Wake, SetFlag]], flag_per_waker: false, relaxed_flags: false, direct: false, counter: false, self_wakes });
+                v.push(FProg { use_aw, recheck: true, wakers: vec![vec![SetFlag, Wake]], flag_per_waker: false, relaxed_flags: false, direct: false, counter: false, self_wakes, stale_waker: false });
+                v.push(FProg { use_aw, recheck: true, wakers: vec![vec![SetFlag]], flag_per_waker: false, relaxed_flags: false, direct: false, counter: false, self_wakes, stale_waker: false });
+                v.push(FProg { use_aw, recheck: false, wakers: vec![vec![Wake, SetFlag]], flag_per_waker: false, relaxed_flags: false, direct: false, counter: false, self_wakes, stale_waker: false });
             }
-            v.push(FProg { use_aw: false, recheck: true, wakers: vec![vec![SetFlag, Wake]], flag_per_waker: false, relaxed_flags: true, direct: true, counter: false, self_wakes });
-            v.push(FProg { use_aw: false, recheck: true, wakers: vec![vec![SetFlag, Wake, DropWaker]], flag_per_waker: false, relaxed_flags: false, direct: true, counter: false, self_wakes });
-            v.push(FProg { use_aw: false, recheck: true, wakers: vec![vec![SetFlag, DropWaker]], flag_per_waker: false, relaxed_flags: false, direct: true, counter: false, self_wakes });
-            v.push(FProg { use_aw: false, recheck: true, wakers: vec![vec![DropWaker, SetFlag]], flag_per_waker: false, relaxed_flags: false, direct: true, counter: false, self_wakes });
+            v.push(FProg { use_aw: false, recheck: true, wakers: vec![vec![SetFlag, Wake]], flag_per_waker: false, relaxed_flags: true, direct: true, counter: false, self_wakes, stale_waker: false });
+            v.push(FProg { use_aw: false, recheck: true, wakers: vec![vec![SetFlag, Wake, DropWaker]], flag_per_waker: false, relaxed_flags: false, direct: true, counter: false, self_wakes, stale_waker: false });
+            v.push(FProg { use_aw: false, recheck: true, wakers: vec![vec![SetFlag, DropWaker]], flag_per_waker: false, relaxed_flags: false, direct: true, counter: false, self_wakes, stale_waker: false });
+            v.push(FProg { use_aw: false, recheck: true, wakers: vec![vec![DropWaker, SetFlag]], flag_per_waker: false, relaxed_flags: false, direct: true, counter: false, self_wakes, stale_waker: false });
         }
         v
     })
@@ -530,7 +556,7 @@ pub fn prog_at(seed: u64, idx: usize) -> FProg {
     let n = if rng.chance(1, 8) { 2 } else { 1 };
     let wakers: Vec<Vec<WOp>> = (0..n).map(|_| (0..1 + rng.below(if n == 1 { 4 } else { 2 })).map(|_| *rng.pick(&al)).collect()).collect();
     let two = wakers.len() == 2;
-    FProg { use_aw, recheck: rng.chance(3, 4), wakers, flag_per_waker: two && rng.chance(1, 2), relaxed_flags: rng.chance(1, 3), direct: rng.chance(1, 4), counter: false, self_wakes: if rng.chance(1, 5) { 1 + rng.below(2) as u8 } else { 0 } }
+    FProg { use_aw, recheck: rng.chance(3, 4), wakers, flag_per_waker: two && rng.chance(1, 2), relaxed_flags: rng.chance(1, 3), direct: rng.chance(1, 4), counter: false, self_wakes: if rng.chance(1, 5) { 1 + rng.below(2) as u8 } else { 0 }, stale_waker: false }
 }
 
 pub fn judge(p: &FProg, rec: &mut Rec, tier: u8) {
